@@ -18,7 +18,8 @@ THOROUGH_CONFIGS = ("headeronly",)
 MIN_FUNCTIONS_COMPARED = 250
 TECHNIQUE = ("translation validation: (text) the project's generator is re-run on a scratch copy of the working tree and its output compared byte for byte with qtlogger.h; "
              "(resolved program) the type-checked clang AST of every function of the library build is compared with the same function parsed from qtlogger.h - resolved callees, "
-             "overloads, implicit conversions and constants included - so a header that is the exact amalgamation but means something else is seen as well; linkage rules on the header-only parse: every definition includable twice, no mutable internal-linkage variable that carries state (one copy per translation unit), and the header compiles wherever the library does; every amalgamated file leaves the compiler state (pragma push/pop, packing, using-directives) as it found it")
+             "overloads, implicit conversions and constants included - so a header that is the exact amalgamation but means something else is seen as well; linkage rules on the header-only parse: every definition includable twice, no mutable internal-linkage variable that carries state (one copy per translation unit), and the header compiles wherever the library does; every amalgamated file leaves the compiler state (pragma push/pop, packing, using-directives) as it found it"
+             "; every namespace-scope object of the library is constant-initialised (clang's hasConstantInitialization), one named exception")
 LEVEL_TEXT = ("Fully decided on text: one amalgamation (the working tree's sources) is regenerated with the project's own source-to-source tool and compared "
               "byte for byte; every difference is a hunk mapped to the originating source file. Both tiers also compare the normalised, type-checked clang AST of every "
               "function of the library build with the same function parsed from qtlogger.h: a generator that silently drops or alters code, or file-local names of two "
